@@ -78,6 +78,18 @@ theorem C20_float_to_int (to : BaseTy) (hb : to ≠ .bool) (x : Dy) :
 example : intToFloat .float 16777217 = 16777216 ∧ intToFloat .float 16777219 = 16777220 ∧ intToFloat .double (2^63 - 1) = 2^63 := by decide
 example : floatToInt .int ⟨-7, 1⟩ = some (-3) ∧ floatToInt .uchar ⟨1025, 2⟩ = none ∧ floatToInt .bool ⟨1, 5⟩ = some 1 := by decide
 
+/-- class pointers: a static cast to a non-first base moves the designated address by exactly the base's offset and back
+again on the way down; null stays null; the first base and a reinterpret cast do not move it -/
+theorem C20_static_cast_class_ptr (d : Nat) (a : Nat) (ha : a ≠ 0) :
+    staticCastClassPtr d a = a + d ∧ staticCastClassPtr (-(d : Int)) (staticCastClassPtr d a) = a ∧
+    staticCastClassPtr d 0 = 0 ∧ staticCastClassPtr 0 a = a := by
+  have h1 : staticCastClassPtr d a = a + d := by unfold staticCastClassPtr; simp [ha]; omega
+  refine ⟨h1, ?_, by simp [staticCastClassPtr], by unfold staticCastClassPtr; simp [ha]⟩
+  rw [h1]; unfold staticCastClassPtr
+  have : a + d ≠ 0 := by omega
+  rw [if_neg this]
+  omega
+
 example : sandboxStaticCast abiA .uchar .int (.tainted 300) = some 44 := by decide
 example : sandboxStaticCast abiA .schar .ulong (.tvol 4294967295) = some (-1) := by decide
 example : sandboxPtrCast 16 (.tvol 0x6a0000000010 0x100) = 0x6a0000000100 := by decide
